@@ -463,7 +463,12 @@ func (i *Interpreter) popSourceFragment() *sourceFragment {
 	delete(i.sourceFragments, path)
 	// The program's declarations include those of earlier fragments, so the
 	// known predicates are restored rather than deleted one by one.
-	i.knownPredicates = f.knownCheckpoint
+	// The checkpoint stays with the fragment (a rejected definition puts the
+	// fragment back), later fragments extend a copy.
+	i.knownPredicates = make(map[ast.PredicateSym]ast.Decl, len(f.knownCheckpoint))
+	for sym, decl := range f.knownCheckpoint {
+		i.knownPredicates[sym] = decl
+	}
 	i.simpleStore = f.simpleCheckpoint
 	i.temporalStore = f.temporalCheckpoint
 	i.updateCombinedStore()
